@@ -346,6 +346,19 @@ theorem own_machine_handed_out_with_wan_ip (s : SelfView) (q : PeerView) (h : s.
     Gen.introAddrs s q = (q.address, ⟨s.my_estimated_wan.ip, q.address.port⟩, true) := by
   simp [Gen.introAddrs, Id.run, pure, h]
 
+/-- Network.discover_address (translated condition): an address that is new, or whose recorded introducer is not a
+    verified peer — in particular the empty introducer of an address loaded from a snapshot or left by a contact — is
+    adopted by the peer that introduces it; an address whose introducer is still verified keeps its record -/
+theorem orphan_address_is_adopted (b : Bool) :
+    Gen.reparents false b = true ∧ Gen.reparents true false = true ∧ Gen.reparents true true = false := by
+  cases b <;> decide
+
+/-- lazy_wrapper (translated condition): every signed packet of a known peer refreshes that peer's stored address, so
+    the introducer answers to, names in the puncture request, and hands out the address the peer has NOW -/
+theorem known_sender_address_is_refreshed (n : Node) (p : PeerRec) (key : Nat) (src : Addr)
+    (h : n.findPeer key = some p) : (n.senderRec key src).1.v4 = src := by
+  simp [Node.senderRec, h, Gen.refreshesAddress]
+
 /-- on_introduction_request answers as long as the node does not hold MORE than max_peers peers (negative = unlimited) -/
 theorem capacity_guard (m n : Int) : Gen.atCapacity m n = true ↔ 0 ≤ m ∧ m < n := by
   simp [Gen.atCapacity]
